@@ -920,9 +920,16 @@ class Backend:
 
         # Merge sources and generated sources
         raw_sources: T.List[File] = list(extobj.srclist)
+        seen_generated: T.Set[str] = set()
         for gensrc in extobj.genlist:
             for r in gensrc.get_outputs():
                 path = self.get_target_generated_dir(extobj.target, gensrc, r)
+                # A generated source that is listed twice (e.g. directly and
+                # through the sources of a dependency) is compiled only once,
+                # see get_target_generated_sources().
+                if path in seen_generated:
+                    continue
+                seen_generated.add(path)
                 raw_sources.append(File.from_built_relative(path))
 
         # Filter out headers and all non-source files
